@@ -1,7 +1,7 @@
 /* UNIT
 {
  "id": "PP.peek",
- "file": "pp.c", "function": "peek",
+ "file": "pp.c", "function": "peek", "also_functions": ["expect", "consume", "ctxpush"],
  "properties": {"C12": "contract", "C13": "contract", "C19": "safety"},
  "mode": "harness",
  "replace_calls": {"next": "stub_next"},
